@@ -1314,6 +1314,68 @@ fn poison(s: &mut DefaultSolver<f64>, val: f64) {
     }
 }
 
+/// The poisoning that matches the characterisation proved on the whole-solver model
+/// (`C05.full_solve_reads_only` / `full_solve_stale_field` / `full_solve_idempotent_finite`):
+/// of the mutable state, `solve()` may read ONLY `0·workx` (`solve_constant_rhs`) and `Px·0`
+/// (`residuals.update`, `symv` with b = 0).  Those two buffers get finite garbage WITH A
+/// POSITIVE SIGN (so that `0·garbage = +0`, the same zero a freshly built solver has there);
+/// every other mutable component — iterate, step vectors, `prev_vars`, all other residual fields
+/// incl. `rx_inf`/`rz_inf`, the six other KKT work vectors, the whole `info` block incl. `prev_*`,
+/// the cone scalings, the `solution` object — gets `dead` (NaN, ±inf, huge: anything).
+fn poison_exact(s: &mut DefaultSolver<f64>, dead: f64, live: f64) {
+    assert!(live.is_finite() && live.is_sign_positive());
+    for v in [&mut s.variables, &mut s.step_lhs, &mut s.step_rhs, &mut s.prev_vars] {
+        v.x.fill(dead);
+        v.s.fill(dead);
+        v.z.fill(dead);
+        v.τ = dead;
+        v.κ = dead;
+    }
+    step::residuals::fill(&mut s.residuals, dead);
+    step::residuals::fill_px(&mut s.residuals, live);
+    clarabel::solver::implementations::default::verif_hooks_kktsystem_c05::fill_work_vectors_split(&mut s.kktsystem, live, dead);
+    // the whole info block
+    s.info.μ = dead;
+    s.info.sigma = dead;
+    s.info.step_length = dead;
+    s.info.iterations = 12345;
+    s.info.cost_primal = dead;
+    s.info.cost_dual = dead;
+    s.info.res_primal = dead;
+    s.info.res_dual = dead;
+    s.info.res_primal_inf = dead;
+    s.info.res_dual_inf = dead;
+    s.info.gap_abs = dead;
+    s.info.gap_rel = dead;
+    s.info.ktratio = dead;
+    s.info.status = SolverStatus::NumericalError;
+    clarabel::solver::implementations::default::verif_hooks_info::set_prev(&mut s.info, [dead; 6]);
+    // the solution object (same lengths, arbitrary content)
+    s.solution.x.fill(dead);
+    s.solution.s.fill(dead);
+    s.solution.z.fill(dead);
+    s.solution.obj_val = 4.25;
+    s.solution.obj_val_dual = -4.25;
+    s.solution.r_prim = dead;
+    s.solution.r_dual = dead;
+    s.solution.iterations = 777;
+    s.solution.status = SolverStatus::InsufficientProgress;
+    // cone scaling state: a scaling update from a garbage interior point (symmetric cones); the
+    // nonsymmetric cones are refreshed by update_scaling at the first pass
+    let m = s.variables.s.len();
+    let g = vec![live.max(0.5); m];
+    if s.cones.is_symmetric() {
+        let mut sv = g.clone();
+        let mut zv = g.clone();
+        s.cones.unit_initialization(&mut zv, &mut sv);
+        for (a, b) in sv.iter_mut().zip(zv.iter_mut()) {
+            *a *= 5.0;
+            *b *= 0.125;
+        }
+        s.cones.update_scaling(&sv, &zv, 0.3, ScalingStrategy::PrimalDual);
+    }
+}
+
 fn run_meta_repeat(r: &Req) -> String {
     let seed = r.u("seed") as u64;
     let fam = r.str("fam").to_string();
@@ -1344,10 +1406,64 @@ fn run_meta_repeat(r: &Req) -> String {
                 .replace(' ', "_");
         }
     }
+    // the characterisation of the model theorems, exactly: anything in the dead components,
+    // positive finite garbage in the two `0·stale` buffers
+    for (dead, live) in [(f64::NAN, 3.25e7), (f64::NEG_INFINITY, 1.0e-300), (-1.0e300, 0.0), (f64::INFINITY, 7.5)] {
+        poison_exact(&mut s, dead, live);
+        s.solve();
+        let c = harvest(&s);
+        if a.bits() != c.bits() {
+            return format!("FAIL solve-after-exact-poison(dead:{},live:{})-differs status {:?}/{:?} iters {}/{}", dead, live, a.status, c.status, a.iters, c.iters)
+                .replace(' ', "_");
+        }
+    }
     // a fresh solver
     let d = solve(&pr, false, &st);
     if a.bits() != d.bits() {
         return "FAIL fresh-solver-differs".into();
+    }
+    // Hypothesis (iv) of `C05.full_solve_stale_qdldl` (`QW`), on the implementation: `KKTSystem::update`
+    // forgets whatever previous solves left in the linear solver object.  The used (solved, poisoned,
+    // solved again) solver and a fresh one go through the first two calls of `default_start`; the KKT
+    // values, the engine's permuted copy and the answer of the following solve must agree bit for bit.
+    if s.cones.is_symmetric() {
+        let mut f = build(&pr, false, &st);
+        s.cones.set_identity_scaling();
+        f.cones.set_identity_scaling();
+        let u1 = s.kktsystem.update(&s.data, &s.cones, &s.settings);
+        let u2 = f.kktsystem.update(&f.data, &f.cones, &f.settings);
+        if u1 != u2 {
+            return format!("FAIL update-after-solve flag {} vs fresh {}", u1, u2).replace(' ', "_");
+        }
+        match (s.kktsystem.verif_c08_kkt_state(), f.kktsystem.verif_c08_kkt_state()) {
+            (Some(k1), Some(k2)) => {
+                if proto::ffs(&k1.kkt_nzval) != proto::ffs(&k2.kkt_nzval) {
+                    return "FAIL update-does-not-forget: KKT values of a used solver differ from a fresh one after update".replace(' ', "_");
+                }
+                match (&k1.ldl_nzval, &k2.ldl_nzval) {
+                    (Some(l1), Some(l2)) => {
+                        if proto::ffs(l1) != proto::ffs(l2) {
+                            return "FAIL update-does-not-forget: permuted LDL copy of a used solver differs from a fresh one after update".replace(' ', "_");
+                        }
+                    }
+                    (None, None) => {}
+                    _ => return "FAIL update-does-not-forget: ldl copy present on one side only".replace(' ', "_"),
+                }
+            }
+            (None, None) => {}
+            _ => return "FAIL update-does-not-forget: kkt state present on one side only".replace(' ', "_"),
+        }
+        for v in [&mut s.variables, &mut f.variables] {
+            v.x.fill(0.5);
+            v.s.fill(0.5);
+            v.z.fill(0.5);
+        }
+        let i1 = s.kktsystem.solve_initial_point(&mut s.variables, &s.data, &s.settings);
+        let i2 = f.kktsystem.solve_initial_point(&mut f.variables, &f.data, &f.settings);
+        let vb = |v: &DefaultVariables<f64>| format!("{}|{}|{}", proto::ffs(&v.x), proto::ffs(&v.s), proto::ffs(&v.z));
+        if i1 != i2 || vb(&s.variables) != vb(&f.variables) {
+            return format!("FAIL update-does-not-forget: solve_initial_point after update differs (flags {}/{})", i1, i2).replace(' ', "_");
+        }
     }
     // concurrently on `par` threads
     let pr = Arc::new(pr);
@@ -1398,9 +1514,9 @@ pub fn channels() -> Vec<Channel> {
         Channel { name: "kkt.solve", tol: Tol::Exact, run: run_kkt_solve, oracle: Some(oracle_kkt_solve), modelled: true,
             rust_fn: "DefaultKKTSystem::solve (assembly around the linear solver) + _csc_quad_form", lean: "KktSystem.solveAssemble / C06.reduced_solve_is_newton" },
         Channel { name: "meta.variants", tol: Tol::Exact, run: run_meta_variants, oracle: Some(oracle_meta), modelled: false,
-            rust_fn: "DefaultSolver::new + solve over equivalent formulations/settings", lean: "C05.weak_duality_slack (soundness of the pair oracle)" },
+            rust_fn: "DefaultSolver::new + solve over equivalent formulations/settings", lean: "C05.weak_duality_slack_tol_all_cones / objectives_agree_within_slack / contradictory_verdicts_{pinf,dinf}_slack / map_back_sound (soundness of the pair oracle, all seven cone kinds)" },
         Channel { name: "meta.repeat", tol: Tol::Exact, run: run_meta_repeat, oracle: Some(oracle_meta), modelled: false,
-            rust_fn: "DefaultSolver::solve repeated / after poisoning / on 2-8 threads", lean: "C05.solve_is_function_of_data" },
+            rust_fn: "DefaultSolver::solve repeated / after poisoning / on 2-8 threads", lean: "C05.full_solve_reads_only / full_solve_stale_field / full_solve_linear_solver_only / solve_is_function_of_data" },
     ]
 }
 
@@ -1551,7 +1667,10 @@ fn generate(s: &mut Session) {
                 rewrite workx as `-1*q + 0*workx`, and DefaultResiduals::update computes Px through symv with b = 0 \
                 (`y.scale(0)`): a non-finite value left there by a numerically broken solve would propagate into \
                 the next solve() on the same object (meta.repeat therefore poisons the KKT work vectors and \
-                residuals.Px with finite garbage and everything else with NaN)".into());
+                residuals.Px with finite garbage and everything else with NaN; its second poisoning round is exactly \
+                the relation `Stale` of C05.full_solve_reads_only: NaN / inf / huge values in EVERY other mutable \
+                component incl. x1,z1,x2,z2,workz,work_conic, rx_inf, the info block with prev_*, the solution object, \
+                and finite garbage with a positive sign bit in workx and Px)".into());
     }
     gen_step_cases(s);
     if s.is_searching() {
